@@ -69,11 +69,11 @@ type panicValue struct {
 	Why  string
 }
 
-func Nop()                   { record("Nop") }
-func IncInt(x int) int       { record("IncInt", x); return x + 1 }
-func Greet(s string) string  { record("Greet", s); return "hello " + s }
-func Uni(s string) string    { record("Uni", s); return s + s }
-func Under(n int8) int8      { record("Under", n); return -n }
+func Nop()                                   { record("Nop") }
+func IncInt(x int) int                       { record("IncInt", x); return x + 1 }
+func Greet(s string) string                  { record("Greet", s); return "hello " + s }
+func Uni(s string) string                    { record("Uni", s); return s + s }
+func Under(n int8) int8                      { record("Under", n); return -n }
 func Flip(b bool, f float64) (bool, float64) { record("Flip", b, f); return !b, f * 2 }
 func DivMod(a, b int) (int, int) {
 	record("DivMod", a, b)
@@ -233,7 +233,9 @@ func Multi3(s string, n int, f float64) (string, int, float64, error) {
 
 // ---- methods and function fields of a struct, published with a namespace ----
 
-type SubSvc struct{ id string }
+// SubSvc is a nested service; a named string (not a struct with an unexported field: AddAllMethods cannot
+// walk those when the nested struct is held by value).
+type SubSvc string
 
 func (s SubSvc) Sum(n ...int) int {
 	args := make([]interface{}, len(n))
@@ -242,7 +244,7 @@ func (s SubSvc) Sum(n ...int) int {
 		args[i] = x
 		t += x
 	}
-	record(s.id+".Sum", args...)
+	record(string(s)+".Sum", args...)
 	return t
 }
 
@@ -256,7 +258,7 @@ func (c *Calc) Add(a, b int) int { record(c.id+".Add", a, b); return a + b }
 func (c *Calc) Name() string     { record(c.id + ".Name"); return "calc " + c.id }
 
 func newCalc(id string) *Calc {
-	c := &Calc{id: id, Sub: SubSvc{id: id + ".Sub"}}
+	c := &Calc{id: id, Sub: SubSvc(id + ".Sub")}
 	c.Neg = func(x int) int { record(id+".Neg", x); return -x }
 	return c
 }
